@@ -93,7 +93,13 @@ class SimPool:
         t.join(120)
         if t.is_alive():
             raise HarnessError('simulated worker did not finish')
-        return len(pend)
+        n = len(pend)
+        done = {id(p[0]) for p in pend}
+        for i, t_ in enumerate(self.tasks):
+            if id(t_[0]) in done:
+                self.tasks[i] = (_FINISHED, None, (), {})
+        del pend, t_
+        return n
 
     def shutdown(self, wait=True, **kw):
         self.shutdown_called = True
